@@ -500,9 +500,13 @@ def oracle(case, result):
     if not isinstance(result, list) or len(result) != len(jobs):
         return ('harness:result-shape', repr(result)[:300])
     ctxs = resolve(jobs)
-    calls = {}
+    calls, done = {}, {}
     for jidx, (job, ctx, (res, logs)) in enumerate(zip(jobs, ctxs, result)):
         c = calls.setdefault(ctx['origin'], [0] * len(ctx['parts']))
+        # partitions that an earlier job on this dataset object computed successfully: a persisted dataset above
+        # the injected stage may serve them without calling the injected function again
+        dn = done.setdefault(ctx['origin'], [False] * len(ctx['parts']))
+        ctx = dict(ctx, maybe_cached=[d and any(x in PERSIST_OPS for x in ctx['post']) for d in dn])
         o = oracle_job(maxr, mode, job[0], ctx, list(c), res, logs)
         if o is not None:
             sig, msg = o
@@ -512,6 +516,7 @@ def oracle(case, result):
         for i, recs in enumerate(logs):
             if isinstance(recs, list):
                 c[i] += len(recs)
+                dn[i] = dn[i] or any(r[3] == -1 for r in recs)
     return None
 
 
@@ -533,13 +538,19 @@ def oracle_job(maxr, mode, action, ctx, calls, res, logs):
     # while the lock is not held a nested operation cannot be refused, hence cannot fail the task (the finding
     # above is reported first); judge the retry clause with what the implementation does
     held = cls == 0
-    fe = first_exhausted(maxr, parts, calls, held)
+    skipped = [mc and isinstance(l, list) and not l for mc, l in zip(ctx['maybe_cached'], logs)]
+    fe = None
+    for i, p in enumerate(parts):
+        q = p if held else (p[0], p[1], [])
+        if not skipped[i] and n_failing(maxr, q, calls[i]) >= maxr:
+            fe = i
+            break
     want_ok = (0, plain_result(ctx, action))
     if res[0] == 0:
         if res != want_ok:
             return (f'runJob:result:{name}', f'expected {want_ok[1]!r}, got {res[1]!r}'
                                              + (' (dataset reused from an earlier job)' if reused else ''))
-        if fe is not None and not reused:
+        if fe is not None:
             return ('run_task:exception', f'{name}: partition {fe} fails {maxr} times but the action returned {res[1]!r}')
     else:
         if res[1] == LOCKED and not any(not c for p in parts for _k, c in p[2]):
@@ -547,14 +558,13 @@ def oracle_job(maxr, mode, action, ctx, calls, res, logs):
         if fe is None:
             return (f'runJob:result:{name}', f'every partition succeeds within {maxr} attempts, expected {want_ok[1]!r}, '
                                              f'got {res!r}')
-        if not reused:
-            _d, plan, nest = parts[fe]
-            if held and any(not caught for _k, caught in nest):
-                want = (1, LOCKED, ())
-            else:
-                want = (1, plan[calls[fe] + maxr - 1][0], (ctx['origin'], fe, calls[fe] + maxr))
-            if res != want:
-                return ('run_task:exception', f'{name}: partition {fe} fails {maxr} times, expected {want!r}, got {res!r}')
+        _d, plan, nest = parts[fe]
+        if held and any(not caught for _k, caught in nest):
+            want = (1, LOCKED, ())
+        else:
+            want = (1, plan[calls[fe] + maxr - 1][0], (ctx['origin'], fe, calls[fe] + maxr))
+        if res != want:
+            return ('run_task:exception', f'{name}: partition {fe} fails {maxr} times, expected {want!r}, got {res!r}')
     # attempt logs: from scratch, exactly the right number of attempts
     for i, recs in enumerate(logs):
         if not isinstance(recs, list):
@@ -566,7 +576,7 @@ def oracle_job(maxr, mode, action, ctx, calls, res, logs):
         nf = n_failing(maxr, q, calls[i])
         if fe is not None and i > fe and mode == 0:
             want_n = (0,)
-        elif reused:
+        elif ctx['maybe_cached'][i]:
             want_n = (0, min(nf + 1, maxr))        # 0: the partition is served from a persisted dataset
         else:
             want_n = (min(nf + 1, maxr),)
